@@ -696,6 +696,11 @@ _reg("numpy.imag", elementwise(lambda x: x.imag()))
 _reg("numpy.exp math.exp", h_exp)
 _reg("numpy.cos math.cos", elementwise(lambda x: mk_fn("cos", [x])))
 _reg("numpy.sin math.sin", elementwise(lambda x: mk_fn("sin", [x])))
+_reg("numpy.tan math.tan", elementwise(lambda x: mk_fn("tan", [x])))
+_reg("numpy.arctan math.atan", elementwise(lambda x: mk_fn("arctan", [x])))
+_reg("numpy.tanh math.tanh", elementwise(lambda x: mk_fn("tanh", [x])))
+_reg("numpy.sinh math.sinh", elementwise(lambda x: mk_fn("sinh", [x])))
+_reg("numpy.cosh math.cosh", elementwise(lambda x: mk_fn("cosh", [x], "pos")))
 _reg("numpy.arcsin math.asin", elementwise(lambda x: mk_fn("arcsin", [x])))
 _reg("numpy.log math.log", elementwise(lambda x: mk_fn("log", [x])))
 _reg("numpy.log10 math.log10", elementwise(lambda x: mk_fn("log10", [x])))
@@ -1059,6 +1064,13 @@ def call_method(I, o, name, args, kw, st, n):
         if name in ("ravel", "flatten"):
             A = _arr(o, st) if isinstance(o, LocalArr) else as_arr(o)
             if A is not None and not is_opaque(A) and A.ndim == 1: return A
+        if name == "tolist":
+            A = _arr(o, st) if isinstance(o, LocalArr) else as_arr(o)
+            if A is not None and not is_opaque(A) and A.ndim == 1:
+                k_ = A.axes[0][1].as_int()
+                if k_ is not None and k_ <= 64: return ListVal([arr_index(A, X.const(i)) for i in range(k_)])
+                r_ = ListVal(); r_.per_iter = [(A.axes[0][0], A.axes[0][1], A.body)]
+                return r_
         if name in ("any", "all", "min", "max", "tolist", "ravel", "flatten"):
             return Opaque(f"array.{name}")
         return Opaque(f"array method {name}")
@@ -1079,6 +1091,17 @@ def call_method(I, o, name, args, kw, st, n):
             if s is None: o.items.append(Opaque("extend")); return None
             o.items.extend(s); return None
         if name in ("tolist", "copy"): return o
+        if name == "pop" and not o.per_iter:
+            k_ = to_x(args[0]).as_int() if args and to_x(args[0]) is not None else (-1 if not args else None)
+            if k_ is None or not o.items: return Opaque("list.pop")
+            try: return o.items.pop(k_)
+            except IndexError: return Mismatch(f"IndexError: pop index {k_} out of range")
+        if name == "insert" and not o.per_iter and len(args) == 2 and to_x(args[0]) is not None and to_x(args[0]).as_int() is not None:
+            o.items.insert(to_x(args[0]).as_int(), args[1]); return None
+        if name == "reverse" and not o.per_iter:
+            o.items.reverse(); return None
+        if name == "clear":
+            o.items = []; o.per_iter = []; return None
         if name == "index": return Opaque("list.index")
         return Opaque(f"list method {name}")
     if isinstance(o, DictVal):
